@@ -270,6 +270,54 @@ let do_emit rest =
                      (String.concat ";" (List.map (function None -> "nil" | Some l -> String.concat "," (List.map ts l)) slots)))
   | _ -> failwith "emit: args"
 
+(* semit <gid> <ast> <inline> <undef bits> : every rule function with its statements (Model/SEmit.v), and the
+   side condition of the theorem that they implement the machine *)
+let do_semit rest =
+  match String.split_on_char ' ' rest with
+  | gid :: ast :: inl :: tl ->
+    let (g, ptx) = Hashtbl.find grammars gid in
+    let bits = match tl with [b] -> b | _ -> "" in
+    let undef = List.init (String.length bits) (fun i -> bits.[i] = '1') in
+    let ni n = string_of_int (int_of_nat n) and zi c = string_of_int (int_of_z c) in
+    let buf = Buffer.create 4096 in
+    let first = ref true in
+    let last_s = ref false in
+    let put t =
+      if t = "s" && !last_s then () else begin
+        if not !first then Buffer.add_char buf ',';
+        first := false; last_s := (t = "s"); Buffer.add_string buf t end in
+    let rec st = function
+      | SInc -> put "inc"
+      | SCallAsu r -> put ("call" ^ ni r)
+      | SState _ -> put "s"
+      | SPredSet _ -> put "pred"
+      | SAddAct r -> put ("addact" ^ ni r)
+      | SLogAct _ -> put "s"
+      | SCond (c, l) ->
+        put ((match c with
+            | QDot -> "Cdot" | QChar c -> "Cc" ^ zi c | QRange (lo, hi) -> "Cr" ^ zi lo ^ "-" ^ zi hi
+            | QCall r -> "Ccall" ^ ni r | QPred -> "Cpred") ^ ":" ^ ni l)
+      | SLbl n -> put ("L" ^ ni n) | SJmp n -> put ("J" ^ ni n) | SSave n -> put ("S" ^ ni n) | SRestore n -> put ("R" ^ ni n)
+      | SSaveP n -> put ("P" ^ ni n)
+      | SAddRule (r, n) -> put ("add" ^ ni r ^ ":" ^ ni n)
+      | SCapture n -> put ("cap:" ^ ni n)
+      | SMemoCheck r -> put ("mc" ^ ni r)
+      | SMemo (r, n, b) -> put ("M" ^ ni r ^ ":" ^ ni n ^ ":" ^ (if b then "1" else "0"))
+      | SReturn b -> put (if b then "ret1" else "ret0")
+      | SBrk -> put "b"
+      | SBlock b -> put "{"; List.iter st b; put "}"
+      | SSwitch (cs, d) ->
+        put "sw";
+        List.iter (fun (keys, c) -> put ("case:" ^ String.concat "." (List.map zi keys)); List.iter st c) cs;
+        put "dflt"; List.iter st d; put "end" in
+    let slots = x_semit_all g ptx (ast = "1") (inl = "1") undef in
+    let parts = List.map (function
+        | None -> "nil"
+        | Some l -> Buffer.clear buf; first := true; last_s := false; List.iter st l; Buffer.contents buf) slots in
+    print_endline (Printf.sprintf "semit %s/%s%s :: deep=%d %s" gid ast inl
+                     (if x_deep_table_b g (inl = "1") then 1 else 0) (String.concat ";" parts))
+  | _ -> failwith "semit: args"
+
 (* diag <id> (rg (def name expr) ...) *)
 let do_diag rest =
   let i = String.index rest ' ' in
@@ -336,6 +384,7 @@ let () =
            | "diag" -> do_diag rest
            | "opt" -> do_opt rest
            | "emit" -> do_emit rest
+           | "semit" -> do_semit rest
            | "link" -> do_link rest
            | "elab" -> do_elab rest
            | "ruletype" -> do_ruletype rest
